@@ -180,8 +180,8 @@ func (r *Run) Do(keys []string) int {
 			clearFacts()
 			if err != nil {
 				rep.Err = err.Error()
-				engineErr = true
 				fmt.Fprintln(os.Stderr, "govc:", err)
+				all = append(all, bindingFailure(r.W, fi, k, err))
 				break
 			}
 			if mask == 0 && x.nSplits > 0 {
@@ -216,8 +216,8 @@ func (r *Run) Do(keys []string) int {
 			clearFacts()
 			if err := lx.verifyFunc(); err != nil {
 				rep.Err = err.Error()
-				engineErr = true
 				fmt.Fprintln(os.Stderr, "govc:", err)
+				all = append(all, bindingFailure(r.W, fi, k, err))
 			}
 			for _, o := range lx.Obls {
 				if r.Only != "" && !strings.Contains(o.Name, r.Only) {
@@ -428,4 +428,17 @@ func (w *World) blockRangeConstants() []string {
 	}
 	sort.Strings(out)
 	return out
+}
+
+// bindingFailure: the contract of a function no longer applies to its code (a loop without invariant, a clause
+// naming a local that does not exist any more, a construct outside the supported subset). On the unchanged tree
+// this never happens (the checks pass there), so it is the consequence of a change to the function: none of its
+// obligations can be generated, hence none is discharged. Reported as one undischarged obligation.
+func bindingFailure(w *World, fi *FuncInfo, key string, err error) *Obligation {
+	o := &Obligation{Name: key + "/contract-applies", Kind: "binding", Func: key, Guard: True(), Goal: False(), Expect: "unsat",
+		Note: "the contract of " + key + " no longer applies to its code, so none of its obligations is discharged: " + err.Error(), scanFail: true}
+	if fi != nil && fi.Fn != nil {
+		o.Pos = w.Fset.Position(fi.Fn.Pos())
+	}
+	return o
 }
